@@ -371,6 +371,8 @@ pub fn gen_ast(rng: &mut Rng) -> AstG {
     let comma = terms.iter().position(|t| t.name == "Comma");
     let lits: Vec<usize> = (0..nplain).filter(|i| terms[*i].lit.is_some()).collect();
     let mut rules = vec![];
+    // fence of the listed finding duplicate-kind-type-names: a production kind is used once per grammar
+    let mut kinds_used: Vec<&str> = vec![];
     for i in 0..n {
         let name = RULE_NAMES[i].to_string();
         let shape = rng.below(10);
@@ -401,7 +403,6 @@ pub fn gen_ast(rng: &mut Rng) -> AstG {
             continue;
         }
         let mut alts: Vec<AAlt> = vec![];
-        let mut kinds_used: Vec<&str> = vec![];
         for _ in 0..rng.range(1, 3) {
             let ln = rng.range(1, 4);
             let mut used: Vec<&str> = vec![];
